@@ -1,5 +1,5 @@
 SPECIFICATION Spec
 CONSTANTS MaxQ = 4
  MaxT = 3
-INVARIANTS OwnerUnique RankIsIndexInSlice NoExitCollision
+INVARIANTS OwnerUnique RankIsIndexInSlice NoExitCollision ApAgree
 CHECK_DEADLOCK FALSE
